@@ -356,6 +356,18 @@ def _check_ws(ctx, repo):
            construct="dispatcher awaits result future", msg="the dispatcher returns without waiting for the command: later messages overtake earlier ones")
 
 
+# functions whose mechanical mutants are swept in the thorough tier (coverage evidence, see sa/mutate.py)
+MUTATION_SCOPE = ['web/sys_fn_web:eval_sys_fn_create_web_server',
+                  'web/sys_fn_web:eval_sys_fn_create_web_server._get',
+                  'web/sys_fn_web:eval_sys_fn_create_web_server._post',
+                  'web/sys_fn_web:WebServerHandle.shutdown',
+                  'web/sys_fn_web:eval_sys_fn_shutdown_web_server',
+                  'ws/sys_fn_ws:NetworkClient._listen',
+                  'ws/sys_fn_ws:NetworkClient._run',
+                  'ws/sys_fn_ws:execute_server_command',
+                  'ws/sys_fn_ws:run_command_on_klongloop',
+                  'types:KGFnWrapper.__call__']
+
 SEEDS = [
     Seed("drop-fn-default-get", "fault", WEB, "async def _get(request: web.Request, fn=fn_wrapped, route=route):\n            try:\n                assert request.method == \"GET\"\n                return web.Response(text=str(fn(",
          "async def _get(request: web.Request, route=route):\n            try:\n                assert request.method == \"GET\"\n                return web.Response(text=str(fn_wrapped(", rule="C20-R1"),
